@@ -558,8 +558,11 @@ class MetadataManager:
             return None
         if not text:
             return None
-        if text.isdigit():
-            # Legacy format: plain version number -> legacy filename
+        if text.isascii() and text.isdigit():
+            # Legacy format: plain version number -> legacy filename.
+            # ASCII only: str.isdigit() also accepts characters such as
+            # superscripts that int() rejects, and a hint is never allowed to
+            # make opening the table raise.
             return int(text), f"v{text}.metadata.json"
         m = _METADATA_FILE_RE.match(text)
         if m:
